@@ -25,7 +25,7 @@ build = base.build
 
 
 def classify(kind, sk, info):
-    if kind == "impure-laundered":
+    if kind.split("@")[0] == "impure-laundered":
         return "C04-purity-laundering"
     return None
 
